@@ -63,15 +63,47 @@ Definition in_cat (cat : list cp) (name : N) : bool := existsb (fun c => N.eqb (
 
 (* the property oracle for one step, on the implementation's own observations.
    wstate: spec catalogue, digests recorded at checkpoint time, "a rollback has happened" *)
+(* The known finding `catalogue-rolled-back` has an exact shape: the artifacts live in the store that is
+   rolled back, so after ROLLBACK TO x the catalogue is the one x's image carries.  w_k replays just
+   that (the model with a FIXED configuration -- catalogue in the rolled-back store -- not the
+   regenerated one) over the script's checkpoint / rollback statements.  A catalogue or a rollback
+   target that differs from the promise is put in the known class only if it is what w_k says;
+   anything else -- e.g. ALL checkpoints gone after a rollback -- is a violation of its own. *)
 Record wstate := W { w_cat : list cp; w_q : list (N * (N * N * N)); w_qi : list (N * (N * N * N)); w_rb : bool; w_n : nat;
-                     w_last : list N (* the catalogue the implementation listed after the previous step *) }.
-(* after a rollback has replaced the catalogue (known class 1) the implementation may resolve a name or id
-   against a catalogue that is not the promised one: a wrong target is then that class, not a new violation *)
-Definition cat_diverged (w : wstate) : bool := w_rb w && negb (list_eqb N.eqb (spec_names (w_cat w)) (w_last w)).
+                     w_k : state }.
+Definition known_cfg (max : nat) : cfg := CFG false false max.
 Definition in_cat_id (cat : list cp) (k : N) : bool := existsb (fun c => Nat.eqb (cp_img c) (N.to_nat k)) cat.
 
 Definition cat_verdict (w : wstate) (o : obs) : N :=
-  if list_eqb N.eqb (spec_names (w_cat w)) (o_cat o) then 0 else if w_rb w then 11 else 2.
+  if list_eqb N.eqb (spec_names (w_cat w)) (o_cat o) then 0
+  else if w_rb w && list_eqb N.eqb (list_names (w_k w)) (o_cat o) then 11 else 2.
+
+(* digests of the checkpoint the known-defect catalogue resolves to *)
+Definition known_q (w : wstate) (e : option cp) : option (N * N * N) :=
+  match e with Some c => aget (w_qi w) (N.of_nat (cp_img c)) | None => None end.
+
+(* verdict of one rollback: promised target's digests q_spec (None = not in the promised catalogue),
+   the known-defect target kt, whether the implementation reported success, what it answers now *)
+Definition rollback_verdict (w w' : wstate) (q_spec : option (N * N * N)) (kt : option cp) (ok : bool) (o : obs) : N :=
+  let known_match := w_rb w && match known_q w kt with
+                               | Some q => q3_nonrel_eqb q (o_q o)
+                               | None => false
+                               end in
+  match q_spec with
+  | Some q =>
+      if negb ok then (if w_rb w && match kt with None => true | Some _ => false end then 11 else 2)
+      else
+        (* known class 0 (restore-slabs) has an exact shape too: restore_from_bytes EMPTIES the relational
+           slab.  Relational answers that differ from the checkpoint while the slab still holds tables
+           (e.g. rows written after the checkpoint survive) are a violation of their own. *)
+        let rel_known := match o_rel o with [] => true | _ => false end in
+        let here := if q3_eqb q (o_q o) then 0
+                    else if q3_nonrel_eqb q (o_q o) then (if rel_known then 10 else 2)
+                    else if known_match then 11 else 2 in
+        worse here (cat_verdict w' o)
+  | None =>
+      if ok then (if known_match then worse 11 (cat_verdict w' o) else 2) else cat_verdict w o
+  end.
 
 Definition oracle_step (max : nat) (w : wstate) (sp : sop) (o : obs) : wstate * N :=
   match sp with
@@ -80,32 +112,19 @@ Definition oracle_step (max : nat) (w : wstate) (sp : sop) (o : obs) : wstate * 
                 (cat_verdict w o))
   | SCheckpoint name now ok =>
       let cat' := enforce max (w_cat w ++ [CP name now (w_n w)]) in
-      let w' := W cat' ((name, o_q o) :: w_q w) ((N.of_nat (w_n w), o_q o) :: w_qi w) (w_rb w) (S (w_n w)) (w_last w) in
+      let w' := W cat' ((name, o_q o) :: w_q w) ((N.of_nat (w_n w), o_q o) :: w_qi w) (w_rb w) (S (w_n w))
+                  (step (known_cfg max) (w_k w) (OCheckpoint name now)) in
       (w', if negb ok then 2 else cat_verdict w' o)
   | SRollback name ok =>
-      let w' := W (w_cat w) (w_q w) (w_qi w) (ok || w_rb w) (w_n w) (w_last w) in
-      if in_cat (w_cat w) name then
-        if negb ok then (w', if w_rb w then 11 else 2)
-        else
-          match aget (w_q w) name with
-          | Some q =>
-              let here := if q3_eqb q (o_q o) then 0 else if cat_diverged w then 11 else if q3_nonrel_eqb q (o_q o) then 10 else 2 in
-              (w', worse here (cat_verdict w' o))
-          | None => (w', 9)
-          end
-      else (w', if ok then (if w_rb w then 11 else 2) else cat_verdict w o)
+      let kt := find_cp (s_cat (st (w_k w))) name in
+      let w' := W (w_cat w) (w_q w) (w_qi w) (ok || w_rb w) (w_n w)
+                  (if ok then step (known_cfg max) (w_k w) (ORollback name) else w_k w) in
+      (w', rollback_verdict w w' (if in_cat (w_cat w) name then aget (w_q w) name else None) kt ok o)
   | SRollbackId k ok =>
-      let w' := W (w_cat w) (w_q w) (w_qi w) (ok || w_rb w) (w_n w) (w_last w) in
-      if in_cat_id (w_cat w) k then
-        if negb ok then (w', if w_rb w then 11 else 2)
-        else
-          match aget (w_qi w) k with
-          | Some q =>
-              let here := if q3_eqb q (o_q o) then 0 else if cat_diverged w then 11 else if q3_nonrel_eqb q (o_q o) then 10 else 2 in
-              (w', worse here (cat_verdict w' o))
-          | None => (w', 9)
-          end
-      else (w', if ok then (if w_rb w then 11 else 2) else cat_verdict w o)
+      let kt := find_cp_id (s_cat (st (w_k w))) (N.to_nat k) in
+      let w' := W (w_cat w) (w_q w) (w_qi w) (ok || w_rb w) (w_n w)
+                  (if ok then step (known_cfg max) (w_k w) (ORollbackId (N.to_nat k)) else w_k w) in
+      (w', rollback_verdict w w' (if in_cat_id (w_cat w) k then aget (w_qi w) k else None) kt ok o)
   | SList => (w, cat_verdict w o)
   end.
 
@@ -115,8 +134,7 @@ Fixpoint walk (c : cfg) (s : state) (w : wstate) (steps : list (sop * obs)) (sev
   | (sp, o) :: r =>
       let s' := model_step c s sp in
       let '(w', v) := oracle_step (max_cp c) w sp o in
-      let w'' := W (w_cat w') (w_q w') (w_qi w') (w_rb w') (w_n w') (o_cat o) in
-      walk c s' w'' r (worse sev v) (agree && model_agrees s' o)
+      walk c s' w' r (worse sev v) (agree && model_agrees s' o)
   end.
 
 Fixpoint nodup_b (l : list N) : bool :=
@@ -132,7 +150,7 @@ Definition check_script (c : script_case) : N :=
   let '(max, steps) := c in
   if negb (well_formed steps) then 9
   else
-    let '(sev, agree) := walk (the_cfg max) init (W [] [] [] false 0 []) steps 0 true in
+    let '(sev, agree) := walk (the_cfg max) init (W [] [] [] false 0 init) steps 0 true in
     if N.eqb sev 2 then V_VIOLATION
     else if N.eqb sev 9 then 9
     else if negb agree then V_MISMATCH
